@@ -157,6 +157,37 @@ def noisecopies(rng, n):
     return bytes(out[:n])
 
 
+def longlits(rng, n):
+    """blocks that are mostly literals (> 64 KiB of them, Huffman-compressible or raw) carrying only a handful of long matches, some
+    of them in the last part of the block: the decoder's literal buffer is split between the destination and its side buffer and the
+    hand-over falls among the last sequences of the block"""
+    BLK = 131072
+    out = bytearray()
+    while len(out) < n:
+        room = BLK - (len(out) % BLK)
+        nseq = rng.choice([1, 2, 3, 5, 8, 9, 12, 30])
+        skew = rng.random() < 0.7
+        alpha = [rng.randrange(256) for _ in range(rng.choice([20, 60, 200]))]
+        cuts = sorted(rng.randrange(room) for _ in range(nseq))
+        if rng.random() < 0.6:
+            cuts = sorted(cuts[:-2] + [room - rng.randint(40, 30000) for _ in range(2)]) if nseq > 2 else cuts
+        blk = bytearray()
+        for c in cuts + [room]:
+            while len(blk) < c:
+                m = min(c - len(blk), 4096)
+                if skew:
+                    blk += bytes(alpha[min(int(rng.expovariate(0.15)), len(alpha) - 1)] for _ in range(m))
+                else:
+                    blk += randbytes(rng, m)
+            if c < room and len(out) + len(blk) > 300:
+                ln = min(rng.choice([5, 40, 300, 2000]), room - len(blk))
+                hist = out + blk
+                st = rng.randrange(len(hist) - ln) if len(hist) > ln else 0
+                blk += hist[st:st + ln]
+        out += blk[:room]
+    return bytes(out[:n])
+
+
 KINDS = [text, randbytes, periodic, repcodes, small_alphabet, runs, tinymatches]
 
 
